@@ -16,7 +16,16 @@ Clause(name, cond) == IF cond THEN TRUE ELSE PrintT(<<"CLAUSE-FAILED", name, l>>
 
 TInit == l = 1 /\ net = [ok |-> FALSE] /\ sc = << >> /\ ent = << >> /\ nfr = 0 /\ TLCSet(1, 0)
 Open(b) == b < -400000
+\* the network the optimum is taken over holds EVERY pronunciation the dictionary has for a word of the grammar (unless
+\* the configuration turns alternates off): beside every arc of a base word lies one for each of its alternates
+AllProns(N) == \A i \in DOMAIN N.alts : \A j \in DOMAIN N.alts[i][2] :
+                  LET a == N.alts[i][2][j] IN
+                  /\ a # 0
+                  /\ \A k \in DOMAIN N.arcs : N.arcs[k][3] = N.alts[i][1] =>
+                        \E m \in DOMAIN N.arcs : /\ N.arcs[m][1] = N.arcs[k][1] /\ N.arcs[m][2] = N.arcs[k][2]
+                                                 /\ N.arcs[m][3] = a /\ N.arcs[m][4] = N.arcs[k][4]
 TNet == /\ Ev.e = "Net"
+        /\ Clause("every-pronunciation-in-network", ~Ev.usealt \/ AllProns(Ev))
         /\ LET N == Ev IN
              LET ix == TLCEval(Index(N)) IN
              /\ net' = [ok |-> TRUE, N |-> N, ix |-> ix, open |-> Open(N.beam) /\ Open(N.pbeam) /\ Open(N.wbeam)]
